@@ -16,7 +16,7 @@ def StepKeeps (g : Game P M) : AOut M → Prop
   | .done _ s' => TableGood g s'
   | .cancelled s' => TableGood g s'
 
-theorem analyzeStep_keeps {g : Game P M} (hg : GameOK g) (he : EvalOK g) (hinj : HashInj g)
+theorem analyzeStep_keeps {g : Game P M} (hg : GameOK g) (he : EvalOK g) (hinj : HashOK g)
     {cfg : Cfg} (hpr : Precise cfg.opts) {o : Oracle M} (hm : o.Monotone) (hord : OrderOK o)
     (p : P) (base i : Int) (a : ALoop M) (s : Eng M) (hts : TableGood g s) :
     Sat (analyzeStep g cfg o p base i a s) (StepKeeps g) := by
@@ -45,7 +45,7 @@ theorem analyzeStep_keeps {g : Game P M} (hg : GameOK g) (he : EvalOK g) (hinj :
         · rw [h]; exact hl
         · rw [h]; exact hl
 
-theorem analyzeLoop_keeps {g : Game P M} (hg : GameOK g) (he : EvalOK g) (hinj : HashInj g)
+theorem analyzeLoop_keeps {g : Game P M} (hg : GameOK g) (he : EvalOK g) (hinj : HashOK g)
     {cfg : Cfg} (hpr : Precise cfg.opts) {o : Oracle M} (hm : o.Monotone) (hord : OrderOK o) (p : P) (base : Int) :
     ∀ (n : Nat) (i : Int) (a : ALoop M) (s : Eng M), TableGood g s →
       Sat (analyzeLoop g cfg o p base n i a s) (fun x => TableGood g x.2) := by
@@ -69,7 +69,7 @@ theorem analyzeLoop_keeps {g : Game P M} (hg : GameOK g) (he : EvalOK g) (hinj :
 
 /-- **`Analyze`, cancelled or not, keeps the table good** (precise options, any table size, any move order, any
 oracle whose flag stays set once set) -/
-theorem analyze_keeps {g : Game P M} (hg : GameOK g) (he : EvalOK g) (hinj : HashInj g)
+theorem analyze_keeps {g : Game P M} (hg : GameOK g) (he : EvalOK g) (hinj : HashOK g)
     {cfg : Cfg} (hpr : Precise cfg.opts) {o : Oracle M} (hm : o.Monotone) (hord : OrderOK o) (p : P) (s : Eng M)
     (hts : TableGood g s) :
     Sat (analyze g cfg o p s) (fun x => TableGood g x.2) := by
@@ -90,7 +90,7 @@ theorem analyze_keeps {g : Game P M} (hg : GameOK g) (he : EvalOK g) (hinj : Has
       obtain ⟨a, s'⟩ := x
       exact Sat.ok (hloop _ hr)
 
-theorem runCalls_keeps {g : Game P M} (hg : GameOK g) (he : EvalOK g) (hinj : HashInj g)
+theorem runCalls_keeps {g : Game P M} (hg : GameOK g) (he : EvalOK g) (hinj : HashOK g)
     {cfg : Cfg} (hpr : Precise cfg.opts) :
     ∀ (h : History P M) (s : Eng M), (∀ x ∈ h, OrderOK x.2) → (∀ x ∈ h, x.2.Monotone) → TableGood g s →
       Sat (runCalls g cfg h s) (fun x => TableGood g x.2) := by
@@ -150,7 +150,7 @@ def StepCovers (g : Game P M) (p : P) : AOut M → Prop
   | .done a' s' => TableGood g s' ∧ VCovers g p a'.v a'.st.depth
   | .cancelled s' => TableGood g s'
 
-theorem analyzeStep_covers {g : Game P M} (hg : GameOK g) (he : EvalOK g) (hinj : HashInj g)
+theorem analyzeStep_covers {g : Game P M} (hg : GameOK g) (he : EvalOK g) (hinj : HashOK g)
     {cfg : Cfg} (hpr : Precise cfg.opts) {o : Oracle M} (hnc : NoCancel o) (hord : OrderOK o)
     (p : P) (base i : Int) (a : ALoop M) (s : Eng M) (hts : TableGood g s) :
     Sat (analyzeStep g cfg o p base i a s) (StepCovers g p) := by
@@ -189,7 +189,7 @@ theorem analyzeStep_covers {g : Game P M} (hg : GameOK g) (he : EvalOK g) (hinj 
         · rw [h]; exact ⟨hl, by rw [hAd, hAv]; exact hv⟩
         · rw [h]; exact ⟨hl, by rw [hAd, hAv]; exact hv⟩
 
-theorem analyzeLoop_covers {g : Game P M} (hg : GameOK g) (he : EvalOK g) (hinj : HashInj g)
+theorem analyzeLoop_covers {g : Game P M} (hg : GameOK g) (he : EvalOK g) (hinj : HashOK g)
     {cfg : Cfg} (hpr : Precise cfg.opts) {o : Oracle M} (hnc : NoCancel o) (hord : OrderOK o) (p : P) (base : Int) :
     ∀ (n : Nat) (i : Int) (a : ALoop M) (s : Eng M), TableGood g s → VCovers g p a.v a.st.depth →
       Sat (analyzeLoop g cfg o p base n i a s) (fun x => TableGood g x.2 ∧ VCovers g p x.1.v x.1.st.depth) := by
@@ -213,7 +213,7 @@ theorem analyzeLoop_covers {g : Game P M} (hg : GameOK g) (he : EvalOK g) (hinj 
 
 /-- **an uncancelled `Analyze` of an unfinished position on an engine whose table is good**: the table stays good
 and the reported value covers the reported depth -/
-theorem analyze_covers {g : Game P M} (hg : GameOK g) (he : EvalOK g) (hinj : HashInj g)
+theorem analyze_covers {g : Game P M} (hg : GameOK g) (he : EvalOK g) (hinj : HashOK g)
     {cfg : Cfg} (hpr : Precise cfg.opts) {o : Oracle M} (hnc : NoCancel o) (hord : OrderOK o) (p : P)
     (hov : g.over p = false) (s : Eng M) (hts : TableGood g s) :
     Sat (analyze g cfg o p s) (fun x => TableGood g x.2 ∧ VCovers g p x.1.2.1 x.1.2.2.depth) := by
@@ -241,7 +241,7 @@ theorem analyze_covers {g : Game P M} (hg : GameOK g) (he : EvalOK g) (hinj : Ha
 /-- **verdict completeness over histories**: after any history of `Analyze` calls on one engine — any positions, any
 table size, every call with its own move order and its own (monotone) cancellation — an uncancelled `Analyze` of an
 unfinished position reports every forced win and every forced loss that exists within the depth it reports -/
-theorem runCalls_then_complete {g : Game P M} (hg : GameOK g) (he : EvalOK g) (hinj : HashInj g)
+theorem runCalls_then_complete {g : Game P M} (hg : GameOK g) (he : EvalOK g) (hinj : HashOK g)
     {cfg : Cfg} (hpr : Precise cfg.opts) (h : History P M) (hord : ∀ x ∈ h, OrderOK x.2)
     (hmono : ∀ x ∈ h, x.2.Monotone) (p : P) (hov : g.over p = false) {o : Oracle M} (hnc : NoCancel o)
     (hord' : OrderOK o) (rs : List (P × Int)) (s : Eng M) (r : List M × Int × Stats) (s' : Eng M)
